@@ -698,6 +698,9 @@ func (c *Checker) initGlobalEnvCompiler(location *position.Location) {
 	} else {
 		mainCompiler = compiler.CreateBytecodeCompiler(nil, c, location, c.Errors, c.HasAdditionalAbortChecks())
 	}
+	if bytecodeCompiler, ok := mainCompiler.(*compiler.BytecodeCompiler); ok {
+		bytecodeCompiler.SetIncremental(c.IsIncremental())
+	}
 	mainCompiler.InitMainCompiler()
 	c.compiler = mainCompiler.InitGlobalEnv()
 }
